@@ -121,7 +121,14 @@ TrSame == /\ l <= NLog /\ Ev.e \in {"DumpLoad", "Compact"} /\ l' = l + 1
           /\ Ev.dig = origDig
           /\ UNCHANGED <<durable, closeDig, img, slen, pos, origDig>>
 
-TraceNext == \/ TrReset \/ TrCreated \/ TrNoop \/ TrPersist \/ TrImage \/ TrClose \/ TrReopen
+\* a single table dumped and loaded into a fresh database is the same table
+TrTableRT == /\ IsEvent("TableRoundTrip") /\ Ev.res = "ok" /\ Ev.same = 1
+             /\ UNCHANGED <<durable, closeDig, img, slen, pos, origDig>>
+\* loading refuses data that would violate a key
+TrDupLoad == /\ IsEvent("DupLoad") /\ Ev.res = "refused"
+             /\ UNCHANGED <<durable, closeDig, img, slen, pos, origDig>>
+
+TraceNext == \/ TrReset \/ TrTableRT \/ TrDupLoad \/ TrCreated \/ TrNoop \/ TrPersist \/ TrImage \/ TrClose \/ TrReopen
              \/ TrAsofAt \/ TrAsofStep \/ TrAsofFuture \/ TrTrial \/ TrOriginal \/ TrSame
 TraceSpec == TraceInit /\ [][TraceNext]_tvars
 HW == HWMark(l)
